@@ -832,6 +832,17 @@ impl Scenario for Truncate {
             parts.extend(s(&["-E", &n.to_string()]));
             allowed.push(n as i32);
         }
+        if rng.chance(1, 3) && !st.links.is_empty() {
+            // with a filter: the cut can fall inside a packet that is being skipped
+            let l = &st.links[rng.usize_below(st.links.len())];
+            let f = match rng.below(3) {
+                0 => Filter::Link(l.link_id),
+                1 => Filter::Fee(l.fee_id),
+                _ => Filter::Stave(l.fee_id),
+            };
+            parts.extend(f.args());
+            label.push_str(" filter");
+        }
         let im = pick_input_mode(&mut rng);
         label.push_str(if im == InputMode::File { " file" } else { " pipe" });
         let mut full = specgen::spec(im, &parts, input);
